@@ -3,7 +3,10 @@ CONSTANTS
   MaxAdds = 1000
   MaxFlaps = 1000
   MaxShut = 2
+  MaxFees = 1000
+  FeeRates = {6000, 9000, 12000}
+  BaseFee = 6000
+  Kinds = {0, 1, 2}
   BlockInOnResume = FALSE
-  OweSigQuirk = FALSE
-INVARIANTS NoLinkFailure ConformRes ConformMsg ConformOut ConformEv ConformQueue ConformHeights ConformHtlcs ConformLink Mirror EndQuiescent ConformEnd NoFailure QuiescentSynced ExactlyOnce CovSane
+INVARIANTS NoLinkFailure ConformRes ConformMsg ConformOut ConformEv ConformQueue ConformHeights ConformHtlcs ConformFee ConformLink Mirror EndQuiescent ConformEnd NoFailure QuiescentSynced ExactlyOnce CovSane
 CHECK_DEADLOCK TRUE
